@@ -26,6 +26,7 @@ META = {
             'Open findings: strings/lines of exactly 255 characters desynchronise the following reads; strings containing LF read back '
             'with CR under the default newline replacement; with soft_linefeed=True a string starting with CR LF loses the LF.',
 }
+META['text'] += ' Random histories attempt a second OPEN FOR OUTPUT/APPEND of the file the other number holds: it is refused and must change nothing (LOF, EOF, host bytes).'
 
 NF = 2
 NAMES = ['A', 'B']
